@@ -24,6 +24,11 @@ from hypothesis import strategies as st
 from tqv import gen, ref
 from tqv.core import SubCheck, Violation, req
 
+# caller-owned arrays handed to the library must come back unchanged (see tqv/purity.py)
+from tqv.purity import install as _install_purity  # noqa: E402
+
+_install_purity('toqito.states', 'toqito.matrices')
+
 PROPERTY = "C17"
 TOL = 1e-9
 W_TOL = 5e-4
